@@ -199,7 +199,7 @@ func (c *Ctx) unknownTagOb(fn *ssa.Function, tag ssa.Value, tin ssa.Instruction,
 	var leaves []leave
 	okReturn := map[*ssa.Return]bool{}
 	visited := map[*ssa.BasicBlock]bool{}
-	t.ProbeAssume(fn, tag, AV{P: ivOf(maxTag+1, 255)}, func(in ssa.Instruction, _ func(ssa.Value) AV, _ func(string) (AV, bool)) {
+	t.ProbeAssumeAll(fn, c.failingCallsUnder(fn, map[ssa.Value]AV{tag: {P: ivOf(maxTag+1, 255)}}), func(in ssa.Instruction, _ func(ssa.Value) AV, _ func(string) (AV, bool)) {
 		visited[in.Block()] = true
 		ret, ok := in.(*ssa.Return)
 		if !ok || !region(in.Block()) {
@@ -273,6 +273,7 @@ func (c *Ctx) RegionSingleClock(pkg string) []core.Ob {
 	for _, fn := range fns {
 		var memRoot ssa.Value
 		var memPos token.Pos
+		var memStores []*ssa.Store
 		for _, b := range fn.Blocks {
 			for _, in := range b.Instrs {
 				st, ok := in.(*ssa.Store)
@@ -281,6 +282,7 @@ func (c *Ctx) RegionSingleClock(pkg string) []core.Ob {
 				}
 				if r := c.clockRoot(st.Val, 0); r != nil {
 					memRoot, memPos = r, st.Pos()
+					memStores = append(memStores, st)
 				}
 			}
 		}
@@ -309,6 +311,49 @@ func (c *Ctx) RegionSingleClock(pkg string) []core.Ob {
 			}
 		}
 		obs = append(obs, o)
+		// ... and the stamp that is kept in memory is also handed to a writer: before the store (on a
+		// dominating block) or on every path behind it. A branch that refreshes Region.Timestamps only
+		// leaves the table on disk stale, and a fresh Load disagrees with memory.
+		for i, st := range memStores {
+			w := core.Ob{Rule: "T-REGIDX", Key: fmt.Sprintf("stamp-mirrored:%s#%d", core.FnName(fn), i+1), Pos: c.P.Pos(st.Pos()), Func: core.FnName(fn), Armed: true, Status: core.OK,
+				Want: "where a clock reading is stored into Region.Timestamps, the same reading is handed to the package's header writer on that path (before the store or on every path behind it)"}
+			root := c.clockRoot(st.Val, 0)
+			hands := func(x ssa.Instruction) bool {
+				ci, ok := x.(ssa.CallInstruction)
+				if !ok {
+					return false
+				}
+				g := ci.Common().StaticCallee()
+				if g != nil && !inPkgs(g, pkg) && !ioWriteCallee(ci.Common()) {
+					return false
+				}
+				for _, a := range ci.Common().Args {
+					if r := c.clockRoot(a, 0); r != nil && r == root {
+						return true
+					}
+				}
+				return false
+			}
+			before := false
+			for _, d := range fn.Blocks {
+				if !(d == st.Block() || d.Dominates(st.Block())) {
+					continue
+				}
+				for _, x := range d.Instrs {
+					if x == ssa.Instruction(st) {
+						break
+					}
+					if hands(x) {
+						before = true
+					}
+				}
+			}
+			if !before && !mustFollow(fn, st, hands) {
+				w.Status = core.Violated
+				w.Got = "on this path the stamp goes into memory only: the time stamp table in the file keeps the old value"
+			}
+			obs = append(obs, w)
+		}
 	}
 	if judged == 0 {
 		obs = append(obs, core.Ob{Rule: "T-REGIDX", Key: "single-clock", Armed: true, Status: core.OK,
@@ -745,6 +790,40 @@ func (c *Ctx) PlainRenderingRemovesCodes(pkg string) []core.Ob {
 		o := core.Ob{Rule: "T-FMTCODE", Key: "plain-cleans-string-arguments:" + core.FnName(fn), Pos: c.P.Pos(fn.Pos()), Func: core.FnName(fn), Armed: true, Status: core.OK,
 			Want: "a translation argument that is a string is type-tested for string and cleaned by the function that cleans the text before it is formatted"}
 		cleaned := false
+		// the elements, and the parameters of local closures / helpers of the package they are handed to
+		seenV := map[ssa.Value]bool{}
+		for i := 0; i < len(elems); i++ {
+			e := elems[i]
+			if seenV[e] || e.Referrers() == nil {
+				continue
+			}
+			seenV[e] = true
+			for _, r := range *e.Referrers() {
+				if call, ok := r.(*ssa.Call); ok && len(elems) < 32 {
+					var callee *ssa.Function
+					fv := call.Call.Value
+					if ld, ok := fv.(*ssa.UnOp); ok && ld.Op == token.MUL {
+						if al, ok := ld.X.(*ssa.Alloc); ok {
+							if sv := singleStore(al); sv != nil {
+								fv = sv
+							}
+						}
+					}
+					if mc, ok := fv.(*ssa.MakeClosure); ok {
+						callee, _ = mc.Fn.(*ssa.Function)
+					} else if g := call.Call.StaticCallee(); g != nil && inPkgs(g, pkg) {
+						callee = g
+					}
+					if callee != nil && len(callee.Blocks) > 0 {
+						for ai, a := range call.Call.Args {
+							if a == e && ai < len(callee.Params) {
+								elems = append(elems, callee.Params[ai])
+							}
+						}
+					}
+				}
+			}
+		}
 		for _, e := range elems {
 			if e.Referrers() == nil {
 				continue
@@ -1331,7 +1410,18 @@ func (c *Ctx) endListOb(fn *ssa.Function, tag ssa.Value, tin ssa.Instruction, us
 	region := func(b *ssa.BasicBlock) bool { return tin.Block().Dominates(b) }
 	okReturn := map[*ssa.Return]bool{}
 	visited := map[*ssa.BasicBlock]bool{}
-	t.ProbeAssumeAll(fn, map[ssa.Value]AV{tag: {P: ivOf(0, 0)}, bound: {P: ivOf(1, 1<<31-1)}}, func(in ssa.Instruction, _ func(ssa.Value) AV, _ func(string) (AV, bool)) {
+	// header read by a helper of the module that hands back tag, length and error together: whether
+	// it refuses the pair is a relation between two of its results, which the intervals do not carry
+	if ex, ok := tag.(*ssa.Extract); ok {
+		if hc, ok := ex.Tuple.(*ssa.Call); ok {
+			if g := hc.Call.StaticCallee(); g != nil && c.P.InModule(g) && g.Signature.Results().Len() >= 3 {
+				o.Armed = false
+				o.Got = "tag and length come out of one helper (" + core.FnName(g) + "): not judged here"
+				return o
+			}
+		}
+	}
+	t.ProbeAssumeAll(fn, c.failingCallsUnder(fn, map[ssa.Value]AV{tag: {P: ivOf(0, 0)}, bound: {P: ivOf(1, 1<<31-1)}}), func(in ssa.Instruction, _ func(ssa.Value) AV, _ func(string) (AV, bool)) {
 		visited[in.Block()] = true
 		ret, ok := in.(*ssa.Return)
 		if !ok || !region(in.Block()) {
@@ -1465,11 +1555,42 @@ func (c *Ctx) EndSentinelSwallow(pkg string) []core.Ob {
 			oneEdges := map[*ssa.BasicBlock]bool{}
 			for _, b := range fn.Blocks {
 				iff, isIf := b.Instrs[len(b.Instrs)-1].(*ssa.If)
-				if !isIf || !(b == isTrue || isTrue.Dominates(b)) {
+				if !isIf {
 					continue
 				}
-				cmp, isCmp := iff.Cond.(*ssa.BinOp)
-				if !isCmp || (cmp.Op != token.EQL && cmp.Op != token.NEQ) {
+				under := func(x *ssa.BasicBlock) bool { return x == isTrue || isTrue.Dominates(x) }
+				// the comparison itself, or the merged result of `a && n == 1` / `a || n != 1` where it is
+				// evaluated as a value (a case clause): the other incoming values are the constant that
+				// decides the branch the other way
+				var cmp *ssa.BinOp
+				viaPhi := false
+				switch x := iff.Cond.(type) {
+				case *ssa.BinOp:
+					cmp = x
+				case *ssa.Phi:
+					var others []bool
+					for _, e := range x.Edges {
+						switch y := e.(type) {
+						case *ssa.BinOp:
+							cmp = y
+						case *ssa.Const:
+							if y.Value != nil && y.Value.Kind() == constant.Bool {
+								others = append(others, constant.BoolVal(y.Value))
+							}
+						}
+					}
+					viaPhi = cmp != nil && len(others) == len(x.Edges)-1
+					for _, o := range others {
+						// n == 1 needs the other inputs false (&&), n != 1 needs them true (||)
+						if cmp != nil && o != (cmp.Op == token.NEQ) {
+							viaPhi = false
+						}
+					}
+					if !viaPhi {
+						cmp = nil
+					}
+				}
+				if cmp == nil || (cmp.Op != token.EQL && cmp.Op != token.NEQ) || !under(cmp.Block()) {
 					continue
 				}
 				if k, isK := constIntVal(cmp.Y); !isK || k != 1 {
@@ -1498,6 +1619,57 @@ func (c *Ctx) EndSentinelSwallow(pkg string) []core.Ob {
 						}
 					}
 				}
+			}
+			// (c) nothing is reported as read without the decoder having been asked: a shortcut that
+			// recognises the absent case by itself (peek at the tag byte, return) skips both the count
+			// test and the reset
+			decodes := func(cc *ssa.CallCommon, depth int) bool { return false }
+			decodes = func(cc *ssa.CallCommon, depth int) bool {
+				if strings.HasSuffix(calleeName(cc), "nbt.(Decoder).Decode") {
+					return true
+				}
+				if g := cc.StaticCallee(); g != nil && depth < 2 && inPkgs(g, pkg) {
+					for _, ci := range callsIn(core.Origin(g), func(string, *ssa.CallCommon) bool { return true }) {
+						if decodes(ci.Common(), depth+1) {
+							return true
+						}
+					}
+				}
+				return false
+			}
+			var decBlocks []*ssa.BasicBlock
+			for _, b := range fn.Blocks {
+				for _, in := range b.Instrs {
+					if ci, ok := in.(ssa.CallInstruction); ok && decodes(ci.Common(), 0) {
+						decBlocks = append(decBlocks, b)
+					}
+				}
+			}
+			shortcut := false
+			for _, b := range fn.Blocks {
+				ret, isRet := b.Instrs[len(b.Instrs)-1].(*ssa.Return)
+				if !isRet || len(ret.Results) == 0 {
+					continue
+				}
+				last := ret.Results[len(ret.Results)-1]
+				if !isErrorType(last.Type()) || errKnownNonNil(last, b) {
+					continue
+				}
+				dom := false
+				for _, db := range decBlocks {
+					if db == b || db.Dominates(b) {
+						dom = true
+					}
+				}
+				if !dom && len(decBlocks) > 0 {
+					shortcut = true
+					o.Status, o.Pos = core.Violated, c.P.Pos(ret.Pos())
+					o.Got = "a return that may report success lies before the decoder is asked: an \"absent\" recognised by a shortcut of its own leaves a re-used destination holding the previous value"
+				}
+			}
+			if shortcut {
+				obs = append(obs, o)
+				continue
 			}
 			if around := reach(oneEdges); len(around) > 0 {
 				rb := around[0]
@@ -1840,7 +2012,8 @@ func (c *Ctx) ScannerDelegateMakesCurrent(pkg string) []core.Ob {
 					Want: "before a byte is handed to " + g.Name() + " (which goes on with a literal without setting the step) that state has been made the current one"}
 				made := false
 				isG := func(v ssa.Value) bool {
-					if fv, ok := v.(*ssa.Function); ok {
+					// (the step may be of a named function type: the function value is converted on the way)
+					if fv, ok := stripConv(v).(*ssa.Function); ok {
 						return core.Origin(fv) == g
 					}
 					return false
@@ -2479,6 +2652,54 @@ func (c *Ctx) GateRepliesRead() []core.Ob {
 		if core.Rel(pk.PkgPath) != "server" {
 			continue
 		}
+		pk := pk
+		declOf := map[*types.Func]*ast.FuncDecl{}
+		for _, f := range pk.Syntax {
+			for _, d := range f.Decls {
+				if fd, ok := d.(*ast.FuncDecl); ok && fd.Body != nil {
+					if obj, ok := pk.TypesInfo.Defs[fd.Name].(*types.Func); ok {
+						declOf[obj] = fd
+					}
+				}
+			}
+		}
+		// mentions: behind position after, the function compares a packet id with the constant named y
+		// (== / != / case), itself or in a function of the package it calls there (two deep)
+		var mentions func(fd *ast.FuncDecl, after token.Pos, y string, depth int) bool
+		mentions = func(fd *ast.FuncDecl, after token.Pos, y string, depth int) bool {
+			found := false
+			ast.Inspect(fd.Body, func(q ast.Node) bool {
+				if found || q == nil {
+					return false
+				}
+				switch x := q.(type) {
+				case *ast.BinaryExpr:
+					if x.Pos() > after && (x.Op == token.EQL || x.Op == token.NEQ) && (idName(pk.TypesInfo, x.X) == y || idName(pk.TypesInfo, x.Y) == y) {
+						found = true
+					}
+				case *ast.CaseClause:
+					for _, e := range x.List {
+						if x.Pos() > after && idName(pk.TypesInfo, e) == y {
+							found = true
+						}
+					}
+				case *ast.CallExpr:
+					if x.Pos() > after && depth < 2 {
+						// the id handed to a helper that expects it: expectPacket(conn, packetid.X)
+						for _, a := range x.Args {
+							if idName(pk.TypesInfo, a) == y {
+								found = true
+							}
+						}
+						if g := declOf[calleeObj(pk.TypesInfo, x)]; g != nil && g != fd && mentions(g, token.NoPos, y, depth+1) {
+							found = true
+						}
+					}
+				}
+				return !found
+			})
+			return found
+		}
 		for _, f := range pk.Syntax {
 			for _, d := range f.Decls {
 				fd, ok := d.(*ast.FuncDecl)
@@ -2509,22 +2730,34 @@ func (c *Ctx) GateRepliesRead() []core.Ob {
 						}
 						o := core.Ob{Rule: "R-SCHEMA", Key: fmt.Sprintf("reply-is-read:server.%s:%s->%s", fname, pr[0], pr[1]), Pos: c.P.Pos(call.Pos()), Func: "server." + fname, Armed: true, Status: core.OK,
 							Want: "the bot answers " + pr[0] + " with " + pr[1] + " (" + c.P.Pos(pairs[pr]) + "); the function that sends it tests a received packet's id for the answer before it returns"}
-						read := false
-						ast.Inspect(fd.Body, func(q ast.Node) bool {
-							switch y := q.(type) {
-							case *ast.BinaryExpr:
-								if y.Pos() > call.Pos() && (y.Op == token.EQL || y.Op == token.NEQ) && (idName(pk.TypesInfo, y.X) == pr[1] || idName(pk.TypesInfo, y.Y) == pr[1]) {
-									read = true
-								}
-							case *ast.CaseClause:
-								for _, e := range y.List {
-									if y.Pos() > call.Pos() && idName(pk.TypesInfo, e) == pr[1] {
-										read = true
+						// the answer is looked for behind the send: in this function, in a function of the package it
+						// calls afterwards (awaitFinishConfiguration(conn)), or - where the send sits in a helper of
+						// its own - behind the helper's call in its callers
+						read := mentions(fd, call.Pos(), pr[1], 0)
+						if !read {
+							if obj, ok := pk.TypesInfo.Defs[fd.Name].(*types.Func); ok {
+								callers := 0
+								all := true
+								for _, f2 := range pk.Syntax {
+									for _, d2 := range f2.Decls {
+										g, ok := d2.(*ast.FuncDecl)
+										if !ok || g.Body == nil || g == fd {
+											continue
+										}
+										ast.Inspect(g.Body, func(q ast.Node) bool {
+											if c2, ok := q.(*ast.CallExpr); ok && calleeObj(pk.TypesInfo, c2) == obj {
+												callers++
+												if !mentions(g, c2.Pos(), pr[1], 0) {
+													all = false
+												}
+											}
+											return true
+										})
 									}
 								}
+								read = callers > 0 && all
 							}
-							return true
-						})
+						}
 						if !read {
 							o.Status = core.Violated
 							o.Got = "the packet is sent and the function never looks for the bot's answer: the answer arrives as the first packet of the next state, every later packet is off by one"
@@ -2539,6 +2772,227 @@ func (c *Ctx) GateRepliesRead() []core.Ob {
 	if n == 0 {
 		obs = append(obs, core.Ob{Rule: "R-SCHEMA", Key: "reply-is-read", Armed: true, Status: core.OK,
 			Want: "packets the bot answers are followed by a read of the answer on the server's side", Got: fmt.Sprintf("%d request/answer pairs on the bot's side, none of the requests is sent by package server", len(pairs))})
+	}
+	return obs
+}
+
+// failingCallsUnder: calls in fn that hand an assumed value to a function of the module which,
+// with its parameter assumed likewise, has no feasible exit without an error (checkListHeader(tag, n)).
+// For each, the comparison of the call's error with nil is added to the assumptions as decided, so
+// that the case split in fn does not follow the "no error" edge.
+func (c *Ctx) failingCallsUnder(fn *ssa.Function, assume map[ssa.Value]AV) map[ssa.Value]AV {
+	out := map[ssa.Value]AV{}
+	for k, v := range assume {
+		out[k] = v
+	}
+	t := c.TLG()
+	for _, b := range fn.Blocks {
+		for _, in := range b.Instrs {
+			call, ok := in.(*ssa.Call)
+			if !ok {
+				continue
+			}
+			g := call.Call.StaticCallee()
+			if g == nil || len(g.Blocks) == 0 || !c.P.InModule(g) || core.Origin(g) == fn {
+				continue
+			}
+			res := g.Signature.Results()
+			if res.Len() == 0 || !isErrorType(res.At(res.Len()-1).Type()) {
+				continue
+			}
+			sub := map[ssa.Value]AV{}
+			for i, a := range call.Call.Args {
+				if av, ok := assume[stripConv(a)]; ok && i < len(g.Params) {
+					sub[g.Params[i]] = av
+				} else if av, ok := assume[a]; ok && i < len(g.Params) {
+					sub[g.Params[i]] = av
+				}
+			}
+			if len(sub) == 0 {
+				continue
+			}
+			okExit := false
+			t.ProbeAssumeAll(g, sub, func(x ssa.Instruction, _ func(ssa.Value) AV, _ func(string) (AV, bool)) {
+				ret, isRet := x.(*ssa.Return)
+				if !isRet {
+					return
+				}
+				n := len(ret.Results)
+				if n == 0 || !t.ProbeErrNonNil(ret.Results[n-1]) {
+					okExit = true
+				}
+			})
+			if okExit {
+				continue
+			}
+			var errv ssa.Value = call
+			if res.Len() > 1 {
+				errv = nil
+				if call.Referrers() != nil {
+					for _, r := range *call.Referrers() {
+						if ex, ok := r.(*ssa.Extract); ok && ex.Index == res.Len()-1 {
+							errv = ex
+						}
+					}
+				}
+			}
+			if errv == nil || errv.Referrers() == nil {
+				continue
+			}
+			for _, r := range *errv.Referrers() {
+				if cmp, ok := r.(*ssa.BinOp); ok && (isNilConst(cmp.X) || isNilConst(cmp.Y)) {
+					switch cmp.Op {
+					case token.NEQ:
+						out[cmp] = AV{P: ivOf(1, 1)}
+					case token.EQL:
+						out[cmp] = AV{P: ivOf(0, 0)}
+					}
+				}
+			}
+		}
+	}
+	return out
+}
+
+// ---------------------------------------------------------------------------
+// R-ORDER[queue-before-stored-error]: the receiving goroutine stores the error
+// that ended it and closes the queue; what it had queued before is still to be
+// handed out ("packets ... arrive intact and in order", also the last ones
+// before a disconnect). A method that pulls from a queue reports a stored error
+// (a value that does not come out of a call made in the method) only behind the
+// Pull: a fail-fast check in front of it drops the queued packets.
+
+func (c *Ctx) QueueBeforeStoredError(pkg string) []core.Ob {
+	var obs []core.Ob
+	fns := []*ssa.Function{}
+	for _, fn := range c.Funcs() {
+		if inPkgs(fn, pkg) && len(fn.Blocks) > 0 && hasErrorResult(fn) {
+			fns = append(fns, fn)
+		}
+	}
+	sortFns(fns)
+	for _, fn := range fns {
+		var pulls []*ssa.BasicBlock
+		for _, b := range fn.Blocks {
+			for _, in := range b.Instrs {
+				if ci, ok := in.(ssa.CallInstruction); ok && ci.Common().IsInvoke() && ci.Common().Method.Name() == "Pull" {
+					pulls = append(pulls, b)
+				}
+			}
+		}
+		if len(pulls) == 0 {
+			continue
+		}
+		o := core.Ob{Rule: "R-ORDER", Key: "queue-before-stored-error:" + core.FnName(fn), Pos: c.P.Pos(fn.Pos()), Func: core.FnName(fn), Armed: true, Status: core.OK,
+			Want: "an error kept from earlier (a field, an atomic pointer) is returned only behind the Pull from the queue: what was queued before the failure is still delivered"}
+		for _, b := range fn.Blocks {
+			ret, ok := b.Instrs[len(b.Instrs)-1].(*ssa.Return)
+			if !ok || len(ret.Results) == 0 {
+				continue
+			}
+			last := ret.Results[len(ret.Results)-1]
+			if !isErrorType(last.Type()) {
+				continue
+			}
+			if k, isK := last.(*ssa.Const); isK && k.IsNil() {
+				continue
+			}
+			behind := false
+			for _, pb := range pulls {
+				if pb == b || pb.Dominates(b) {
+					behind = true
+				}
+			}
+			if !behind {
+				o.Status, o.Pos = core.Violated, c.P.Pos(ret.Pos())
+				o.Got = "an error is returned before the queue is asked: packets that were received before the connection failed are never handed out"
+			}
+		}
+		obs = append(obs, o)
+	}
+	return obs
+}
+
+// ---------------------------------------------------------------------------
+// R-ORIGIN[rcon-verbatim]: "commands reach the server verbatim ... each
+// response is accepted only under the request id in use". The strings that the
+// RCON methods of package net hand out (AcceptCmd, Resp) are the payload as
+// ReadPacket delivered it: the returned string is a result of ReadPacket (or of
+// a function of the package that only passes one on), not the result of a call
+// that edits it (strings.Trim*, ToLower, a conversion through []byte with
+// changes).
+
+func (c *Ctx) RCONVerbatim() []core.Ob {
+	var obs []core.Ob
+	fns := []*ssa.Function{}
+	for _, fn := range c.Funcs() {
+		if !inPkgs(fn, "net") || len(fn.Blocks) == 0 || fn.Signature.Recv() == nil {
+			continue
+		}
+		if !strings.Contains(types.TypeString(fn.Signature.Recv().Type(), nil), "RCON") {
+			continue
+		}
+		res := fn.Signature.Results()
+		if res.Len() != 2 || !isErrorType(res.At(1).Type()) {
+			continue
+		}
+		if b, ok := res.At(0).Type().Underlying().(*types.Basic); !ok || b.Kind() != types.String {
+			continue
+		}
+		fns = append(fns, fn)
+	}
+	sortFns(fns)
+	for _, fn := range fns {
+		o := core.Ob{Rule: "R-ORIGIN", Key: "rcon-verbatim:" + core.FnName(fn), Pos: c.P.Pos(fn.Pos()), Func: core.FnName(fn), Armed: true, Status: core.OK,
+			Want: "the string handed out is the payload as the packet reader delivered it (no call edits it on the way)"}
+		var verbatim func(v ssa.Value, d int) bool
+		verbatim = func(v ssa.Value, d int) bool {
+			if d > 6 {
+				return false
+			}
+			switch x := v.(type) {
+			case *ssa.Const:
+				return true
+			case *ssa.Extract:
+				call, ok := x.Tuple.(*ssa.Call)
+				if !ok {
+					return false
+				}
+				g := call.Call.StaticCallee()
+				return g != nil && inPkgs(g, "net")
+			case *ssa.Phi:
+				for _, e := range x.Edges {
+					if !verbatim(e, d+1) {
+						return false
+					}
+				}
+				return true
+			case *ssa.UnOp:
+				if al, ok := x.X.(*ssa.Alloc); ok && x.Op == token.MUL && al.Referrers() != nil {
+					for _, r := range *al.Referrers() {
+						if st, ok := r.(*ssa.Store); ok && st.Addr == ssa.Value(al) && !verbatim(st.Val, d+1) {
+							return false
+						}
+					}
+					return true
+				}
+			}
+			return false
+		}
+		for _, b := range fn.Blocks {
+			ret, ok := b.Instrs[len(b.Instrs)-1].(*ssa.Return)
+			if !ok || len(ret.Results) != 2 {
+				continue
+			}
+			if k, isK := ret.Results[1].(*ssa.Const); !(isK && k.IsNil()) {
+				continue // error exits may hand out anything
+			}
+			if !verbatim(ret.Results[0], 0) {
+				o.Status, o.Pos = core.Violated, c.P.Pos(ret.Pos())
+				o.Got = "the string returned with a nil error is computed from the payload by another call: what the peer sent does not arrive byte for byte"
+			}
+		}
+		obs = append(obs, o)
 	}
 	return obs
 }
